@@ -126,6 +126,14 @@ func c03OracleStep(i int, op *eng.Op, so eng.StepObs, reqs []sim.Req, prev []eng
 	}
 	hit := c03Hit(op, so, reqs)
 	rej := rejected(reqs)
+	// a hook resource that an earlier run of the same operation left behind (no before-hook-creation) refuses to be
+	// created again (409): when that happens to a hook of the automatic uninstall / rollback, the recovery aborts
+	hookRefused := ""
+	for _, q := range reqs {
+		if q.Method == "POST" && isHookKeyName(q.Key) && q.Code == 409 {
+			hookRefused = q.Key
+		}
+	}
 	deleteRejected := rej != nil && rej.Method == "DELETE"
 
 	// the target manifest of the operation
@@ -241,6 +249,10 @@ func c03OracleStep(i int, op *eng.Op, so eng.StepObs, reqs []sim.Req, prev []eng
 				if cur == nil && len(prev) > 0 {
 					cur = &prev[len(prev)-1]
 				}
+				if hookRefused != "" {
+					sig = "C03:atomic-recovery-aborted-by-its-own-hook" // K9
+					bad += fmt.Sprintf(" [creation of hook %s was refused: already exists]", hookRefused)
+				}
 				if cur != nil && len(fresh) == 2 && fresh[1].Status == "failed" {
 					for _, r := range cur.Manifest {
 						if _, live := so.Objs[r.Key()]; live && !tk[r.Key()] {
@@ -263,12 +275,22 @@ func c03OracleStep(i int, op *eng.Op, so eng.StepObs, reqs []sim.Req, prev []eng
 			}
 		}
 		if reached {
+			k9 := ""
+			if hookRefused != "" {
+				k9 = fmt.Sprintf(" [creation of hook %s was refused: already exists]", hookRefused)
+			}
+			sigOr := func(s string) string {
+				if hookRefused != "" {
+					return "C03:atomic-recovery-aborted-by-its-own-hook" // K9
+				}
+				return s
+			}
 			if len(so.Ledger) != 0 {
-				add("C03:atomic-install-left-history", statusLine(so.Ledger))
+				add(sigOr("C03:atomic-install-left-history"), statusLine(so.Ledger)+k9)
 			}
 			for _, r := range target {
 				if _, live := so.Objs[r.Key()]; live {
-					add("C03:atomic-install-left-resource", r.Key()+" is still present")
+					add(sigOr("C03:atomic-install-left-resource"), r.Key()+" is still present"+k9)
 				}
 			}
 		}
